@@ -1,6 +1,6 @@
 #!/bin/bash
 # verdicts for the second-generation sweep (tools/mutgen2.py)
-S=${1:-/tmp/sweepB.jsonl}
+S=${1:-/tmp/sweepB2.jsonl}
 T="python3 /verif/tools/triage.py $S"
 $T control C04 "the first declared pool is never registered" n00011
 $T equivalent - "inside a comment / trace-only code" n00034 n00035 n00036 n00037
@@ -11,3 +11,34 @@ $T equivalent - "which missing output is reported (first or last)" n00185
 $T out-of-scope - "explain / trace switches" n00199 n00202 n00203 n00210 n00253 n00254
 $T control C08 "a producer compared with itself: records whose outputs belong to different steps are accepted" n00320
 $T out-of-scope - "signature / version of a foreign file accepted" n00333 n00335
+$T out-of-scope - "an empty identifier / variable name is accepted instead of reported: differs only on input outside the supported syntax" n00550 n00584
+$T control C11 "environments consulted back to front: the outermost binding wins" n00608
+$T equivalent - "capacity estimate only" n00611 n00613
+$T equivalent - "capacity estimate only" n00616 n00620
+$T equivalent - "StackStack::push still bounds-checks vals[n]: the 61st component panics either way (F6)" n00649 n00650 n00651
+$T equivalent - "src and dst are both 0 at that point" n00662
+$T control C13 "the byte after `..` is looked up at the write cursor instead of the read cursor" n00677
+$T out-of-scope - "assert_unchecked hints (numeric invariants of the in-place rewrite are not decided)" n00681 n00682 n00683 n00688 n00689 n00690 n00696 n00697 n00698 n00713 n00714 n00715 n00717
+$T control C13 "the component stack remembers the read cursor instead of the write cursor: `..` pops to the wrong place" n00702
+$T control C13 "the end of the copied span is counted from the write cursor" n00709
+$T control C09 "/showIncludes: blanks are skipped from the end of the line" n00774
+$T out-of-scope - "thread-id slots of the trace/display" n00810
+$T equivalent - "defensive end-of-buffer panic in Scanner::read moved by one: never reached, the typestate shows no read after the NUL" n00868
+$T out-of-scope - "layout of the diagnostic / of n2's own log lines" n00880 n00887 n00888 n00889 n00935 n00936
+$T control C20,C06,C16 "the render thread's handle is not kept: Drop unwraps None and panics at exit" n00909
+$T out-of-scope - "verbose switch; figures and order of the status display" n00919 n00920 n00937 n00938 n00940 n00944
+$T equivalent - "ids are unique: searching from the other end finds the same task" n00930
+$T out-of-scope - "plain console: description line repeated or not, hide_success honoured or not, empty output written: no captured byte lost" n00988 n00991 n00995 n00996
+$T control C18 "every named target is skipped as if it were the manifest whenever the manifest is not a build output" n01023
+$T equivalent - "inside the usage text" n01033
+$T out-of-scope - "--version output" n01034 n01035
+$T control C04 "the default parallelism always replaces the -j value" n01036
+$T out-of-scope - "DenseMap::set_grow grows one element early (the maps it is used on are never empty)" n01045
+$T equivalent - "keys are unique: searching from the other end finds the same entry" n01052
+$T out-of-scope - "the `used generated file .. no dependency path` diagnostic is disabled: the file is stat()ed instead; a misuse diagnostic, not one of the properties" n00121
+$T out-of-scope - "de-duplication of reported dependencies (not needed by the property; rule relaxed)" n00135 n00138
+$T out-of-scope - "hide_progress" n00819 n00820
+$T control C16 "errors of posix_spawn / pipe2 / waitpid family calls are never reported (result checker neutralised)" n00829 n00831
+$T equivalent - "cfg(feature = crlf) code, not compiled in the default configuration" n00843 n00844 n00845 n00846 n00847 n00848 n00849 n00859 n00860 n00861
+$T equivalent - "defensive panics in Scanner::back / read that the typestate shows unreachable" n00851 n00866
+$T out-of-scope - "Scanner::back stepping over a carriage return (inputs with CR LF without the crlf feature are not supported)" n00856 n00858
